@@ -182,3 +182,25 @@ def oracle(c, o):
     if c.op == "handle":
         return U.compare_handles(a["name"], a["pts"], o["vals"], against_derivative=True)
     return U.oracle_tensor(c.op, a, o)
+
+
+# ----------------------------------------------------------------------------------------- findings
+def _w_a34():
+    """negative_binomial_grad vs a central difference of negative_binomial at the Coq witness (data, model, trials) = (3, 1, 1)"""
+    pts = [["3", "1", "1"]]
+    vals = U.run_handles("negative_binomial", pts)
+    return U.compare_handles("negative_binomial", pts, vals, against_derivative=True)
+
+
+def _w_w1():
+    import numpy as np
+    import pyttb as ttb
+    from pyttb.gcp import fg
+    K = ttb.ktensor([np.array([[1.0], [2.0]]), np.array([[1.0], [1.0]])], np.array([2.0]))
+    X = ttb.tensor(np.zeros((2, 2)))
+    G = fg.evaluate(K, X, None, None, lambda d, m: 2 * (m - d))
+    return None if G[0][0, 0] == 16 else f"fg.evaluate with model weights [2]: dF/dA_0[0,0] returned {G[0][0, 0]}, the partial derivative is 16"
+
+
+TRIGGERS = {"never": lambda c: False}
+WITNESSES = {"A-34": _w_a34, "C12-W1": _w_w1}
